@@ -300,7 +300,16 @@ func c18pool(c *Ctx, fn *ssa.Function) {
 			}
 		}
 		okAll := false
+		fromOver := false
 		if lk != nil {
+			// the resources tested are the thresholded ones (captured from the pool), not the subset the node is still over on
+			for x := range backwardAll(lk.Index) {
+				if call, ok := x.(*ssa.Call); ok && an.ShortCallee(&call.Call) == "isNodeOverutilized" {
+					fromOver = true
+				}
+			}
+		}
+		if lk != nil && !fromOver {
 			if hdr := an.InnermostLoopHeader(lk.Block()); hdr != nil {
 				if ifi, isIf := hdr.Instrs[len(hdr.Instrs)-1].(*ssa.If); isIf {
 					body := ifi.Block().Succs[0]
@@ -309,7 +318,7 @@ func c18pool(c *Ctx, fn *ssa.Function) {
 				}
 			}
 		}
-		r.Check(okAll, "PATH", key+"/continue-condition/every-resource-tested", c.Pos(cond.Pos()), "each thresholded resource reaches the headroom test", "an iteration over the thresholded resources can finish without looking up the remaining headroom of that resource: eviction continues although the underused nodes have no room left for it")
+		r.Check(okAll, "PATH", key+"/continue-condition/every-resource-tested", c.Pos(cond.Pos()), "each thresholded resource reaches the headroom test", "the headroom test does not cover every thresholded resource (an iteration can finish without the lookup, or the loop runs over the resources the node is still over on instead of all thresholded ones): eviction continues although the underused nodes have no room left for a resource")
 	}
 	thr := false
 	for _, a := range over.Common().Args {
